@@ -97,7 +97,7 @@ PROPS = {
     },
     "C14": {
         "module": "Cdecao.Props.C14",
-        "extra_modules": ["Cdecao.Props.Main"],
+        "extra_modules": ["Cdecao.Props.Main", "Cdecao.Props.C14Shape"],
         "theorems": ["Props.C14_entries", "Props.C14_entries_sorted", "Props.C14_array"],
         "streams": ["cli-simple", "simple-read"],
     },
@@ -175,7 +175,7 @@ LEVELS = {
             "note": "Model starts at the serde_json value; timestamp syntax by a simplified recogniser exact on the generator's domain; object keys are read as `u64::from_str` does (optional plus sign, leading zeros; generated)."},
     "C13": {"text": "Theorem Props.C13_read (non-interference of the reader): two export values that agree on kind/version/timestamp/event/id and whose course and registration records agree on the views the reader consults (status of the selected part, the two names, course_id/course_instructor/choices of the selected track, segments[track], nr, shortname, sizes, fields) — and, without --ignore-assigned, differ arbitrarily in course_id among known ids, without --ignore-cancelled in the true/false value of the selected track's segment — give the SAME reader result (problem, ambience data or refusal). After the reader (Props/C13OneWorker.lean, on the engine transition system): with one worker the worker never waits (C13_one_worker_never_waits: no wake-up choice, no spurious wake-up), two enabled events lead to the same configuration unless they pop different pending entries (C13_one_worker_step), and for any fixed behaviour of the priority queue (a function of the configurations visited so far) two complete runs end in the same configuration, same incumbent and score (C13_one_worker_outcome); composed (Props/C13E2E.lean) C13_end_to_end: agreeing exports are refused alike or give, for every room list, float behaviour and fixed queue behaviour, complete one-worker runs with the same verdict, score and written registrations / courses objects; trusted: std BinaryHeap and the node solver are functions of their inputs. Pairs of exports (1-10 irrelevant edits of 9 kinds) go through the in-process reader and, with one worker, through the real binary (files compared after stripping timestamps).",
             "note": "Model CD.read; the relation Agree is phrased by equality of views, the nested set-a-member corollaries are covered by congruence lemmas and a worked example. Determinism of the engine with one worker given the same problem is by the engine model being a function of the pop policy (BinaryHeap order is deterministic for equal inputs; trusted)."},
-    "C14": {"text": "Theorems Props.C14_entries / C14_entries_sorted (the listing of a course = exactly the participants assigned to it, in order, flagged iff instructor) and C14_array (one entry per participant, null or valid index, all T and schedules); the real binary's --print output is compared byte for byte with the Lean rendering LM.render, and the output file's array/keys are checked, incl. hidden names, non-ASCII names and a stale longer output file.",
+    "C14": {"text": "Shape theorems (Props/C14Shape.lean): C14_read_shape / _complete / _all_or_nothing (SM.read gives ONE problem entry per document entry IN DOCUMENT ORDER, or refuses the whole document), C14_part_fields / C14_course_fields (name, sizes, choices, hidden names — exactly the document's list —, fixed flag and room numbers are the document's members; the instructor list is the order-preserving de-duplication: C14_dedup_nodup / _mem / _sublist / _first_occurrences), C14_render_blocks / C14_block (the printed listing is one block per course in course order; the count of block c is the number of participants the array assigns to c plus the number of its hidden names; its entries are exactly LM.entries; hidden names listed exactly and in order), C14_simple_listing, C14_simple_end_to_end (reader ∘ search: the assignment array of whatever is reported has one entry per participant of the DOCUMENT, each null or an index into the document's course list). Theorems Props.C14_entries / C14_entries_sorted (the listing of a course = exactly the participants assigned to it, in order, flagged iff instructor) and C14_array (one entry per participant, null or valid index, all T and schedules); the real binary's --print output is compared byte for byte with the Lean rendering LM.render, and the output file's array/keys are checked, incl. hidden names, non-ASCII names and a stale longer output file.",
             "note": "io.rs format_assignment is modelled by LM.render; the possible-rooms strings are taken from the real output and checked by C18."},
     "C15": {"text": "Theorem Props.C15_accept_sound: whatever the simple-format reader + validation accepts is an instance with all indices in range, num_min <= num_max and at least one participant (the premises of the solver's totality theorem C10); the real binary is run on single-field corruptions of valid simple and CdE documents, bad option values and raw garbage: exit status in {64,65,66,2}, no 'panicked', no output file; accept/refuse is compared with the Lean models SM.accepts and CD.read. The two room inputs are modelled too (RI.parseRoomsStr for --rooms, RI.kindsOf for --rooms-file, from the JSON value on): theorems C15_rooms_str / C15_rooms_str_refuse / C15_rooms_file / C15_rooms_file_refuse / C15_rooms_kind (all-or-nothing: accepted ⇒ one entry per item, each the reading of that item and within usize; one bad item refuses the whole input; the split loses or merges nothing, splitComma_spec) and accept/refuse correspondence with the real binary on 20 kinds of string deviations and 24 kinds of file deviations. Program level: Props.C15_main_refused (a run refused before the solver ends with 64/65/66, the solver is not called, no output file is created or touched, nothing is printed), main_front_codes, C15_main_zero_threads / _both_rooms / _rooms_unparsable / _rooms_file_bad / _input_bad / _simple_refused / _cde_refused (each kind of malformed input the property names is refused), C15_main_simple / C15_main_cde (what reaches the solver is exactly what the reader models accept), main_cde_consistent. main.rs as a whole is modelled (Model/Main.lean: MainM.front = every stage before the solver with its exit status, MainM.run = the program as a function of options, environment, solver verdict and output faults); the stage order of main.rs and its command-line definition (clap builder chains per argument, help texts stripped) are re-extracted from the source on every run (Props.main_skeleton_tie, Props.main_clap_tie) and the stream cli-main runs option/environment/document combinations with zero to three things wrong at once through the real binary against MainM.front (exit status, or the participant/course counts logged before the solver).",
             "note": "From the JSON value on; bytes -> value (serde_json), option parsing (clap) are only enumerated. The rooms file goes through serde's derived visitor, whose positional (array of exactly three) form of a room kind is modelled and generated; duplicate member names inside one JSON object are not generated."},
